@@ -12,6 +12,10 @@ CHECKS = {
   "proptest tape-decoded program generation + differential execution on SQLite against an independent reference interpreter",
   "Each generated relational-core program is compiled (sqlite, generic), executed on an in-process SQLite over a generated instance and compared - values, multiplicities, and order where a sort is in effect - with a reference interpreter written from the PRQL book. Sampling: holds on everything explored, shrunk counterexample otherwise.",
   MODEL_NOTE, "DESIGN.md §2, §3 C01"),
+ "C02": ("model",
+  "exhaustive (parent, child, side) operator table + proptest random typed expression trees, each evaluated by SQLite over a cross-product value table against a reference scalar evaluator of the intended tree",
+  "Every type-correct (parent operator, child operator, left|right) combination (exhaustive within that table) and random typed trees to depth 5 are printed with the parentheses the documented table requires, compiled for sqlite/generic, evaluated by SQLite on all 675 operand combinations of the value domain and compared per row with the reference evaluator.",
+  MODEL_NOTE + " The printer is independent of prqlc's formatter; a parser mis-binding therefore shows as a value difference.", "DESIGN.md §3 C02"),
  "C03": ("model",
   "proptest sort/take-biased program generation + differential execution (tie-class sequence oracle) + metamorphic slice invariant",
   "Sort-biased programs are executed on SQLite and the row sequence is compared with the reference order as a sequence of tie classes; additionally `P | take a..b` must equal rows a..b of P's own result for total orders (reference-free).",
@@ -55,7 +59,7 @@ def main():
             "add_only": True,
         },
         "engines": [
-            {"name": "model", "path": "harness/src/model", "serves_properties": ["C01", "C03", "C04"], "kind_free_text": "tape-decoded abstract programs, PRQL printer, reference interpreter, in-process SQLite executor"},
+            {"name": "model", "path": "harness/src/model", "serves_properties": ["C01", "C02", "C03", "C04"], "kind_free_text": "tape-decoded abstract programs, PRQL printer, reference interpreter, in-process SQLite executor"},
             {"name": "lexenum", "path": "harness/src/prop/c17.rs", "serves_properties": ["C17"], "kind_free_text": "exhaustive enumeration of short strings + proptest tape search"},
         ],
         "checks": checks,
